@@ -32,6 +32,7 @@ from . import device
 import os
 import time
 import errno
+import functools
 from binascii import hexlify
 from struct import pack, unpack
 
@@ -474,6 +475,21 @@ class Chipset(object):
         return data[0], br_tx, br_rx
 
 
+def chipset_error_is_ioerror(method):
+    # A chip error (error frame, register access status) that a
+    # discovery or activation method does not handle itself means
+    # that the host-controller communication is broken. The driver
+    # internal exception must not escape, callers expect an IOError.
+    @functools.wraps(method)
+    def wrapper(self, *args, **kwargs):
+        try:
+            return method(self, *args, **kwargs)
+        except Chipset.Error as error:
+            self.log.error(error)
+            raise IOError(errno.EIO, os.strerror(errno.EIO))
+    return wrapper
+
+
 class Device(device.Device):
     # Base class for devices with an NXP PN531, PN532, PN533 or Sony
     # RC-S956 contactless interface chip. This class implements the
@@ -505,9 +521,11 @@ class Device(device.Device):
         self.chipset.close()
         self.chipset = None
 
+    @chipset_error_is_ioerror
     def mute(self):
         self.chipset.rf_configuration(0x01, bytearray([0b00000010]))
 
+    @chipset_error_is_ioerror
     def sense_tta(self, target):
         brty = {"106A": 0}.get(target.brty)
         if brty not in self.chipset.in_list_passive_target_brty_range:
@@ -552,6 +570,7 @@ class Device(device.Device):
             except Chipset.Error:
                 pass
 
+    @chipset_error_is_ioerror
     def sense_ttb(self, target, did=None):
         brty = {"106B": 3, "212B": 6, "424B": 7, "848B": 8}.get(target.brty)
         if brty not in self.chipset.in_list_passive_target_brty_range:
@@ -577,6 +596,7 @@ class Device(device.Device):
             except (Chipset.Error, IOError) as error:
                 self.log.debug(error)
 
+    @chipset_error_is_ioerror
     def sense_ttf(self, target):
         brty = {"212F": 1, "424F": 2}.get(target.brty)
         if brty not in self.chipset.in_list_passive_target_brty_range:
@@ -597,6 +617,7 @@ class Device(device.Device):
         if rsp is not None:
             return nfc.clf.RemoteTarget(target.brty, sensf_res=rsp[1:])
 
+    @chipset_error_is_ioerror
     def sense_dep(self, target):
         # Attempt active communication mode target activation.
         assert target.atr_req, "the target.atr_req attribute is required"
@@ -713,6 +734,7 @@ class Device(device.Device):
             raise nfc.clf.TransmissionError("crc_a check error")
         return data[:-2] if len(data) > 2 else data
 
+    @chipset_error_is_ioerror
     def listen_tta(self, target, timeout):
         if target.brty != "106A":
             info = "unsupported bitrate/type: %r" % target.brty
@@ -788,7 +810,10 @@ class Device(device.Device):
                                    hexlify(data).decode())
                     self.log.debug("send S(DESELECT) %s",
                                    hexlify(data).decode())
-                    self.chipset.tg_response_to_initiator(data)
+                    try:
+                        self.chipset.tg_response_to_initiator(data)
+                    except Chipset.Error as error:
+                        self.log.error(error)
                 elif data:
                     self.log.debug("rcvd TT4_CMD %s",
                                    hexlify(data).decode())
@@ -809,6 +834,7 @@ class Device(device.Device):
                 target.sel_res = nfca_params[5:6]
                 return target
 
+    @chipset_error_is_ioerror
     def listen_ttf(self, target, timeout):
         # For NFC-F listen we can not use TgInitAsTarget because it
         # always sets CIU_TxMode and CIU_RxMode to 106A. Best we can
@@ -864,7 +890,10 @@ class Device(device.Device):
                 self.chipset.write_register("CIU_CommIRq", 0b00110000)
                 fifo_size = self.chipset.read_register("CIU_FIFOLevel")
                 fifo_read = fifo_size * ["CIU_FIFOData"]
-                fifo_data = bytearray(self.chipset.read_register(*fifo_read))
+                fifo_data = self.chipset.read_register(*fifo_read) \
+                    if fifo_size > 0 else []
+                fifo_data = bytearray([fifo_data] if fifo_size == 1
+                                      else fifo_data)
                 if fifo_data and len(fifo_data) == fifo_data[0]:
                     self.log.debug("%s rcvd %s", target.brty,
                                    hexlify(fifo_data).decode())
@@ -877,6 +906,7 @@ class Device(device.Device):
                 self.chipset.write_register("CIU_Command", 0b00001101)
         self.chipset.write_register("CIU_Command", 0)  # Idle command
 
+    @chipset_error_is_ioerror
     def listen_dep(self, target, timeout):
         assert target.sensf_res is not None
         assert target.sens_res is not None
